@@ -30,6 +30,7 @@ type Case struct {
 	Shape  Shape
 	Millis int  // deadline (or cancellation instant) in milliseconds
 	Cancel bool // explicit cancel() at that instant instead of a deadline
+	Far    bool // with Cancel: the context ALSO has a deadline, far away (6 s)
 	GoAST  bool // evaluate the AST rebuilt from Go without positions
 }
 
@@ -193,7 +194,8 @@ func genShape(t *rapid.T, d int) Shape {
 func genCase(t *rapid.T) Case {
 	c := Case{Shape: genShape(t, 4)}
 	c.Millis = []int{20, 50, 100, 200, 400}[gen.Uniform(t, "ms", 5)]
-	c.Cancel = gen.Uniform(t, "cancel", 4) == 0
+	c.Cancel = gen.Uniform(t, "cancel", 3) == 0
+	c.Far = c.Cancel && gen.Uniform(t, "far", 2) == 0
 	c.GoAST = gen.Uniform(t, "goast", 4) == 0
 	if c.Shape.outcome() == "handler" && !c.Cancel {
 		// the handler's 20% share must be comfortably large
@@ -233,7 +235,11 @@ func runOnce(c Case, millis int) result {
 	var ctx context.Context
 	var cancel context.CancelFunc
 	if c.Cancel {
-		ctx, cancel = context.WithCancel(bg)
+		if c.Far {
+			ctx, cancel = context.WithTimeout(bg, 6*time.Second)
+		} else {
+			ctx, cancel = context.WithCancel(bg)
+		}
 		timer := time.AfterFunc(d, cancel)
 		defer timer.Stop()
 	} else {
@@ -260,6 +266,9 @@ func judge(c Case, res result, millis int) (sig, msg string) {
 	mode := fmt.Sprintf("deadline %d ms", millis)
 	if c.Cancel {
 		mode = fmt.Sprintf("cancel() after %d ms", millis)
+		if c.Far {
+			mode += " (the context also has a 6 s deadline)"
+		}
 	}
 	if res.hung {
 		return "does-not-return:" + c.Shape.kernel(), fmt.Sprintf("%s with %s: EVAL still running %v after the start (bound: deadline + max(1.5 s, 10 x deadline))", text, mode, res.elapsed.Round(time.Millisecond))
@@ -317,7 +326,7 @@ func check(c Case) pbt.Verdict {
 	if sig != "" {
 		return pbt.Failf(sig, "%s", msg)
 	}
-	v := pbt.Verdict{Key: fmt.Sprintf("%s|%d|%v|%v", c.Shape.Text(), c.Millis/100, c.Cancel, c.GoAST)}
+	v := pbt.Verdict{Key: fmt.Sprintf("%s|%d|%v|%v|%v", c.Shape.Text(), c.Millis/100, c.Cancel, c.Far, c.GoAST)}
 	v.Labels = append(v.Labels, "kernel:"+c.Shape.kernel(), "expect:"+c.Shape.outcome())
 	if res.r.Err != nil {
 		s := strings.ToLower(res.r.Err.Error())
@@ -366,17 +375,18 @@ func TestEachKernel(t *testing.T) {
 			{Kind: "try", Sub: &base, Catch: "loop", Finally: "quick"},
 		}
 		for i, s := range shapes {
-			for _, cancel := range []bool{false, true} {
+			for mode := 0; mode < 3; mode++ {
+				cancel := mode > 0
 				ms := 60
 				if s.outcome() == "handler" && !cancel {
 					ms = 1000
 				}
 				n++
-				if !pbt.RunOne(t, P, Case{Shape: s, Millis: ms, Cancel: cancel, GoAST: i%2 == 1}) {
+				if !pbt.RunOne(t, P, Case{Shape: s, Millis: ms, Cancel: cancel, Far: mode == 2, GoAST: i%2 == 1}) {
 					return
 				}
 			}
 		}
 	}
-	pbt.Exhaustive("every kernel x {bare, try+quick handler, try+looping finally, try+looping handler+finally} x {deadline, cancel}", n)
+	pbt.Exhaustive("every kernel x {bare, try+quick handler, try+looping finally, try+looping handler+finally} x {deadline, cancel, cancel before a far deadline}", n)
 }
